@@ -22,6 +22,7 @@ Theorem C14_codes_agree_is_equivalence : forall bt ta tamb aa aamb c c',
   alphabets bt = Some ((ta, tamb), (aa, aamb)) -> codes_agree bt c c' = true ->
   equiv_byte ta aa tamb aamb c c'.
 Proof. exact codes_agree_equiv. Qed.
+Print Assumptions C14_codes_agree_is_equivalence.
 
 (* Main statement: for any core, two inputs whose records have the same names and residues that
    are equivalent byte by byte (same code in both alphabets - in particular any change of case and,
